@@ -14,6 +14,8 @@ func init() {
 		Explain: "RPC splitting decided as exhaustiveness, grow-then-check discipline and gating: (R11.1) on the slow path of RPC.split every wire field of pb.RPC and pb.ControlMessage (enumerated from the struct tags on every run) is both read from the receiver and stored into the fragment being built; sub-messages rebuilt for a new fragment keep their non-split fields (every ControlIHave literal carries the TopicID of the IHAVE being split); copyRPC copies the whole struct and the control message; (R11.2) in the gossipsub router queue pushes happen only in doSendRPC, which is called only by sendRPC; (R11.3) sendRPC sends an RPC unsplit only behind `Size() < maxMessageSize` evaluated after all piggybacking, sends a fragment only behind the false edge of `Size() > maxMessageSize`, drops (and reports) on the true edge, and splits with the same limit; (R11.4) doDropRPC traces DROP_RPC and re-queues the control part; (R11.5) grow-then-check: every statement that adds content to the fragment (append / set) is followed on every path by a `Size() > limit` test before the next growth or yield, the overflow branch removes exactly what was added, yields, and restarts the fragment with that element; every yield result is honoured; a non-empty remainder is yielded at the end; (R11.6) no empty RPC is produced: every direct call of the iterator's consumer is evaluated only when the fragment's Size() is not zero; (R11.3, extended) inside the split loop sendRPC drops exactly the oversized fragment (never the RPC being split, whose control part the lazy iterator is still reading) and the loop over the fragments has no early exit. (audit round) R11.6 judges emptiness by content: the guard is a predicate reading messages, subscriptions and all five control lists; (R11.7) the hello packet is split or size-tested before it is written (known finding F37). NOT decided: that fragments fit the limit and carry each element exactly once and in order as an arithmetic fact per input (Size() arithmetic and slice bookkeeping).",
 		Assume:  []string{"gogo-generated Size() is exact", "struct tags `protobuf:` mark exactly the wire fields"},
 		Mutants: []Mutant{
+			{Name: "pushcontrol-overwrites", File: "gossipsub.go", Old: "\t\tif pending, ok := gs.control[p]; ok && pending != ctl {\n\t\t\tctl.Graft = append(pending.Graft, ctl.Graft...)\n\t\t\tctl.Prune = append(pending.Prune, ctl.Prune...)\n\t\t}\n", New: "", Expect: "R11.8"},
+			{Name: "pushcontrol-merges-grafts-only", File: "gossipsub.go", Old: "\t\t\tctl.Prune = append(pending.Prune, ctl.Prune...)\n", New: "", Expect: "R11.8"},
 			{Name: "split-drops-idontwant", File: "pubsub.go", Old: "\t\t\tfor _, idontwant := range ctl.GetIdontwant() {", New: "\t\t\tfor _, idontwant := range []*pb.ControlIDontWant(nil) {", Expect: "R11.1"},
 			{Name: "split-drops-partial", File: "pubsub.go", Old: "\t\tif rpc.Partial != nil {\n\t\t\tif nextRPC.Partial = rpc.Partial; nextRPC.Size() > limit {", New: "\t\tif rpc.Partial != nil && nextRPC.Control == nil {\n\t\t\tif nextRPC.Partial = rpc.Partial; nextRPC.Size() > limit {", Expect: "R11.1"},
 			{Name: "split-ihave-loses-topic", File: "pubsub.go", Old: "\t\t\t\t\t\t\tIhave: []*pb.ControlIHave{{TopicID: ihave.TopicID, MessageIDs: []string{msgID}}},", New: "\t\t\t\t\t\t\tIhave: []*pb.ControlIHave{{MessageIDs: []string{msgID}}},", Expect: "R11.1"},
@@ -560,35 +562,43 @@ func runC11(c *RuleCtx) {
 					return false, false
 				}
 				read := map[string]bool{}
-				ast.Inspect(fn.Body, func(x ast.Node) bool {
-					if se, ok := x.(*ast.SelectorExpr); ok {
-						v := p.R(fn).Val(se)
-						for _, cf := range contentFields {
-							if v.IsField(cf) {
-								read[cf] = true
-							}
-						}
+				for _, cf := range contentFields {
+					// directly, or in a private helper the predicate delegates a part to (the control half, say)
+					if readsFieldDeep(p, fn, cf, 1) {
+						read[cf] = true
 					}
-					return true
-				})
+				}
 				if os.Getenv("PSCHECK_DEBUG_C11") != "" {
 					fmt.Fprintln(os.Stderr, "contentPred", name, "read", read)
 				}
 				if len(read) != len(contentFields) {
 					return false, false
 				}
-				// polarity: the constant returned where messages are present
+				// polarity: what the predicate answers for an RPC that has messages. The edge on which "no messages" is
+				// established has a sibling edge on which messages may be present; the constant returned from there
+				// (if/else chain, `||` condition and switch case list alike) is the answer for content
 				hasMsgs := AtomCmp("len(Publish) > 0", func(v *V) bool {
 					return v.Kind == "len" && len(v.Args) == 1 && v.Args[0].IsField("pb.RPC.Publish")
 				}, ">", isZero)
-				// polarity: the constant returned where "no messages" is known (the final fall-through return):
-				// a predicate that answers false there answers true for content
 				pol, found := false, false
-				if n := len(fn.Body.List); n > 0 {
-					if r, ok := fn.Body.List[n-1].(*ast.ReturnStmt); ok && len(r.Results) == 1 {
-						rv := p.R(fn).Val(r.Results[0])
-						if okd, _ := p.DomAny(fn, r, AtomWant{hasMsgs, false}); okd && (rv.IsConst("true") || rv.IsConst("false")) {
-							pol, found = rv.IsConst("false"), true
+				fg := p.Graph(fn)
+				retConst := func(want string) func(ast.Node) bool {
+					return func(n ast.Node) bool {
+						r, ok := n.(*ast.ReturnStmt)
+						return ok && len(r.Results) == 1 && p.R(fn).Val(r.Results[0]).IsConst(want)
+					}
+				}
+				for _, e := range fg.AtomEdges(hasMsgs, false) {
+					sib := Edge{e.From, 1 - e.Succ}
+					for _, want := range []string{"true", "false"} {
+						if ok, _ := fg.MustPass(EdgeTarget(sib), PassOpts{}, retConst(want)); ok {
+							other := "false"
+							if want == "false" {
+								other = "true"
+							}
+							if !fg.ReachableNode(EdgeTarget(sib), retConst(other), retConst(want)) {
+								pol, found = want == "true", true
+							}
 						}
 					}
 				}
@@ -815,6 +825,7 @@ func runC11(c *RuleCtx) {
 		c.Check(!cleared["Graft"] && !cleared["Prune"] && cleared["Ihave"] && cleared["Iwant"] && cleared["Idontwant"], "R11.4", f.Name, "retries keep GRAFT/PRUNE and drop gossip", f.Decl, "clears Ihave/Iwant/Idontwant only", "pushControl clears the wrong fields")
 	}
 	checkHelloBounded(c)
+	checkPushControlMerges(c)
 	c.Min["R11.1"] = 24
 	c.Min["R11.2"] = 3
 	c.Min["R11.3"] = 4
@@ -911,4 +922,47 @@ func checkHelloBounded(c *RuleCtx) {
 		c.Undecided("R11.7", f.Name, "hello send", f.Decl, "no send on a FirstMessage channel found (anchor drift)")
 	}
 	c.Min["R11.7"] = 1
+}
+
+// R11.8: GRAFT and PRUNE of a dropped RPC are kept for a retry in gs.control[p]. The fragments of one split RPC
+// are dropped one after the other when the queue is full, so the store must not replace what is already pending:
+// pushControl stores only where no entry exists, or what it stores carries the pending entry's GRAFTs and PRUNEs.
+func checkPushControlMerges(c *RuleCtx) {
+	p := c.P
+	f := c.MustFn("R11.8", "(*GossipSubRouter).pushControl")
+	if f == nil {
+		return
+	}
+	pendingField := func(name string) func(*V) bool {
+		return func(v *V) bool {
+			return v != nil && v.Has(func(x *V) bool {
+				return x.IsField("pb.ControlMessage."+name) && len(x.Args) > 0 && x.Args[0].Has(func(y *V) bool {
+					return (y.Kind == "lookupval" || y.Kind == "index") && y.Args[0].IsField(gsField("control"))
+				})
+			})
+		}
+	}
+	absent := AtomLookupOK("entry pending in gs.control", isFieldOf(gsField("control")), nil)
+	n := 0
+	for _, s := range p.StoresTo2(f, gsField("control")) {
+		if s.Kind != "elem-assign" {
+			continue
+		}
+		n++
+		okAbsent, _ := p.DomAny(f, s.Node, AtomWant{absent, false})
+		carries := map[string]bool{}
+		for _, name := range []string{"Graft", "Prune"} {
+			for _, fs := range p.StoresTo2(f, "pb.ControlMessage."+name) {
+				if fs.RHS != nil && pendingField(name)(p.R(f).Val(fs.RHS)) {
+					carries[name] = true
+				}
+			}
+		}
+		ok := okAbsent || (carries["Graft"] && carries["Prune"])
+		c.Check(ok, "R11.8", f.Name, "pending GRAFT/PRUNE survive another drop", s.Node, "stored only when nothing is pending, or merged with the pending entry", "gs.control[p] is overwritten: when the fragments of one split RPC are dropped one by one on a full queue, each drop replaces the GRAFTs and PRUNEs kept for a retry by the previous one, and only the last fragment's are ever re-sent")
+	}
+	if n == 0 {
+		c.Undecided("R11.8", f.Name, "retry store", f.Decl, "pushControl does not store into gs.control (anchor drift)")
+	}
+	c.Min["R11.8"] = 1
 }
